@@ -145,6 +145,117 @@ fn eval_diff(c: &SCase) -> CaseOutcome {
     CaseOutcome::Pass { nontrivial: tp.len() >= 2, classes: vec!["c20/diff".into()], digest: fnv_str(&rendered.text) ^ 0x20 }
 }
 
+/// Stepping while the PROGRAM reads the keyboard: prompt answers and program input share one stdin, each prompt and
+/// each INT 21h read must consume exactly its own line.  Programs of 1-4 console calls (AH=1 reads, AH=2 / INT 10h
+/// writes) with registers and flags printed after each; run with -i, or with an INT 3 in front (a prompt before the
+/// first read), or plain; the stdin stream is assembled in the order the reference consumes it.
+#[derive(Clone, Debug)]
+pub struct ICase {
+    pub calls: Vec<(crate::c18::Call, [u16; 4])>,
+    /// 0 = -i, 1 = INT 3 before the first call, 2 = INT 3 before every call
+    pub mode: u8,
+    pub cmds: Vec<u8>,
+    pub choices: Vec<u8>,
+}
+
+fn icase_s() -> BoxedStrategy<ICase> {
+    use crate::c18::Call;
+    let call = prop_oneof![
+        4 => crate::c18::line_s(1, 20).prop_map(|line| Call::GetChar { line }),
+        2 => crate::c18::out_char().prop_map(|dl| Call::PutChar { dl }),
+        1 => (crate::c18::out_char(), 0u16..6).prop_map(|(al, cx)| Call::RepChar { al, cx }),
+    ];
+    (
+        proptest::collection::vec((call, [crate::pt::u16s(), crate::pt::u16s(), crate::pt::u16s(), crate::pt::u16s()]), 1..=4),
+        0u8..3,
+        proptest::collection::vec(any::<u8>(), 8),
+        proptest::collection::vec(any::<u8>(), 24),
+    )
+        .prop_map(|(mut calls, mode, cmds, choices)| {
+            // at least one keyboard read
+            if !calls.iter().any(|(c, _)| matches!(c, Call::GetChar { .. })) {
+                calls.push((Call::GetChar { line: b"Key".to_vec() }, [1, 2, 3, 4]));
+            }
+            ICase { calls, mode, cmds, choices }
+        })
+        .boxed()
+}
+
+fn eval_input(c: &ICase) -> CaseOutcome {
+    let c18 = crate::c18::Case18 { calls: c.calls.clone(), stdin_mode: 0, tweaks: vec![], choices: c.choices.clone() };
+    let mut b = crate::c18::build(&c18);
+    if c.mode >= 1 {
+        // INT 3 in front of the first (every) console call: position = before the "mov bx, noise" that opens a call
+        let mut out: Vec<Item> = Vec::new();
+        let mut first = true;
+        for it in b.prog.code.drain(..) {
+            let opens = matches!(&it, Item::Ins(i) if i.mn == "mov" && matches!(i.ops.first(), Some(crate::asm::Opd::R16(crate::asm::R16::BX))));
+            if opens && (first || c.mode == 2) {
+                out.push(Item::Ins(crate::asm::Insn::new("int", vec![crate::asm::Opd::Imm(3, crate::asm::ImmKind::UB)])));
+                first = false;
+            }
+            out.push(it);
+        }
+        b.prog.code = out;
+    }
+    let interpreted = c.mode == 0;
+    let layout = Layout { choices: c.choices.clone(), comments: false, trailing_newline: true, pack_lines: false };
+    let rendered = render_program(&b.prog, &layout);
+    let flat = flatten(&b.prog);
+    let lines: Vec<usize> = rendered.flat_offsets.iter().map(|o| rendered.line_of(*o)).collect();
+    let image = data_image(&b.prog.data);
+    // prompt script: mostly next, now and then a print command first
+    let mut script: Vec<PromptCmd> = Vec::new();
+    for k in 0..600usize {
+        let sel = c.cmds[k % c.cmds.len()].wrapping_add((k / c.cmds.len()) as u8);
+        if sel % 11 == 0 {
+            script.push(PromptCmd::Print(PrintStmt::Reg, "print reg".into()));
+        }
+        script.push(PromptCmd::Next(if sel & 1 == 0 { "n".into() } else { "next".into() }));
+    }
+    let cfg = RunCfg { interpreted, script: &script, lines: &lines, max_steps: 10_000, input_lines: Some(&b.input_lines), buf_fill: None };
+    let rr = ref_run(&flat, &image, &cfg, &Quirks::none());
+    let mut stdin: Vec<u8> = Vec::new();
+    for (is_prompt, k) in &rr.stdin_seq {
+        if *is_prompt {
+            stdin.extend_from_slice(script[*k].text().as_bytes());
+        } else {
+            stdin.extend_from_slice(b.input_lines.get(*k).map(|l| l.as_slice()).unwrap_or(b""));
+        }
+        stdin.push(b'\n');
+    }
+    let exp = normalise(&rr.events);
+    let out = run_cli(rendered.text.as_bytes(), Stdin::Data(&stdin), interpreted, 8 << 20, 30_000);
+    let replay = json!({"kind":"cli","source":rendered.text,"stdin":String::from_utf8_lossy(&stdin),"interpreted":interpreted,"stdin_closed":false,
+        "expected_events": exp.iter().map(|e| format!("{:?}", e)).collect::<Vec<_>>()});
+    if matches!(out.status, Status::Timeout | Status::SpawnError(_)) {
+        return CaseOutcome::Inconclusive(format!("{:?}", out.status));
+    }
+    if rr.stop != Stop::Halt {
+        return CaseOutcome::Inconclusive(format!("reference stopped with {:?}", rr.stop));
+    }
+    if !out.clean() {
+        return CaseOutcome::Fail { key: "c20|input|abnormal-exit".into(), what: format!("status {:?} {}", out.status, out.err_str().lines().next().unwrap_or("")), replay };
+    }
+    let toks = match tokenize(&out.stdout) {
+        Ok(t) => t,
+        Err(e) => return CaseOutcome::Fail { key: "c20|input|unparsable-output".into(), what: e, replay },
+    };
+    if toks != exp {
+        return CaseOutcome::Fail { key: "c20|input|events".into(), what: format!("stepping while the program reads the keyboard ({}): {}", ["-i", "int 3 before the first call", "int 3 before every call"][c.mode as usize], crate::c17::first_diff(&exp, &toks)), replay };
+    }
+    let reads = rr.stdin_seq.iter().filter(|(p, _)| !*p).count();
+    let prompts_before_read = rr.stdin_seq.iter().position(|(p, _)| !*p).map(|i| i > 0).unwrap_or(false);
+    let mut classes = vec![format!("c20/input/mode-{}", c.mode)];
+    if prompts_before_read {
+        classes.push("c20/input/prompt-before-keyboard-read".into());
+    }
+    if reads >= 2 {
+        classes.push("c20/input/two-or-more-reads".into());
+    }
+    CaseOutcome::Pass { nontrivial: prompts_before_read, classes, digest: fnv_str(&rendered.text) ^ fnv64(&stdin) }
+}
+
 pub fn run(ctx: &Ctx) {
     ctx.set_rule("L3: terminating programs from the structured generator (markers, loops, calls, data) with stepping enabled by the -i switch, by a trap flag set and cleared through PUSHF/POP/OR|AND/PUSH/POPF in mid-program, or by INT 3 at generated places, x prompt scripts vec(cmd,0..60) over {n, next, N, '  next  ', print commands, garbage lines, empty line, q, quit} ending in premature end of input; the tokenised stdout must equal the reference event sequence (one 'About to execute line N' per executed instruction while stepping, naming its line; print answered without advancing; q/quit/end of input terminate with status 0); differential part: -i with every prompt answered n versus the plain run. Output is capped at 64 KiB + 4x the expected size. Non-trivial = script with >=1 print and >=3 n, end of input before the program ends, or stepping switched on/off in mid-program.");
     ctx.assume("stdin is a pipe or closed; terminal line discipline is not modelled; on end of input at a prompt an extra 'Exiting' line is allowed");
@@ -157,6 +268,12 @@ pub fn run(ctx: &Ctx) {
     run_cases(ctx, "c20", n, scase_s, eval, |c| json!({"source": render_case(c).1.text, "interpreted": c.interpreted, "stdin": String::from_utf8_lossy(&crate::c17::script_bytes(&c.script[..c.script.len().min(12)]))}));
     let n2 = ctx.tier.pick(200usize, 3_000usize);
     run_cases(ctx, "c20-diff", n2, scase_s, eval_diff, |c| json!({"source": render_case(c).1.text, "mode": "plain vs -i with all n"}));
+    let n3 = ctx.tier.pick(300usize, 5_000usize);
+    run_cases(ctx, "c20-input", n3, icase_s, eval_input, |c| json!({"kind":"c20-input","mode": c.mode, "calls": format!("{:?}", c.calls.iter().map(|(x, _)| x).collect::<Vec<_>>())}));
+    // print commands on both sides of every bound of the print reader, typed at INT 3 and -i prompts, DS = 0 .. FFFFh
+    crate::c17::boundary_prompt_family(ctx, "c20");
+    ctx.require_class("c20/input/prompt-before-keyboard-read", 100);
+    ctx.require_class("c20/input/two-or-more-reads", 30);
     ctx.require_class("c20/-i", 100);
     ctx.require_class("c20/trap-flag-stepping", 30);
     ctx.require_class("c20/int3", 30);
